@@ -191,6 +191,20 @@ func checkC14(p *Prog, r *Report) {
 				}
 			}
 		}
+		if returned && errEx != nil {
+			// … on every path: a nil test of it whose non-nil case goes on (retrying, ignoring some errors) swallows the
+			// writer's error in that case
+			if _, dropped := errValueDiscipline(p, topLevel(errEx.Parent()), errEx); dropped != "" {
+				r.Bad("(*Template).ExecuteWriter:writer-error", p.InstrPos(writeTo), "the error of writing to the caller's writer is tested at %s, but a non-nil error does not always end the call with that error (it is ignored or retried in some case): ExecuteWriter can return nil although the writer reported an error", dropped)
+				returned = false
+			} else if inLoop(writeTo) {
+				r.Bad("(*Template).ExecuteWriter:writer-error", p.InstrPos(writeTo), "the finished output is handed to the caller's writer in a loop: after a partial write the rest is sent again, and the writer's error of the first attempt is lost")
+				returned = false
+			}
+			if !returned {
+				goto funnel
+			}
+		}
 		if returned {
 			r.OK("(*Template).ExecuteWriter:writer-error", p.InstrPos(writeTo), "the error result of the flush is returned")
 		} else {
@@ -200,6 +214,7 @@ func checkC14(p *Prog, r *Report) {
 		r.Unk("(*Template).ExecuteWriter:writer-error", p.Pos(ew.Pos()), "no flush call identified")
 	}
 
+funnel:
 	// ---- R-C14-FUNNEL
 	r.Begin("R-C14-FUNNEL", "all Execute variants reach the same executor with the caller's context unchanged and return the buffer's content untransformed", 4)
 	for _, name := range []string{"Execute", "ExecuteBytes", "ExecuteWriter", "ExecuteWriterUnbuffered"} {
